@@ -100,6 +100,11 @@ def e1_events(P, fn, cache={}, depth=1):
         cache[fn] = res
         return res
     res["capped"] = M.capped or bool(M.unsupported)
+    # panics recorded on states that had no continuation (an unwrap with only its failing side left)
+    for ev in getattr(M, "panic_records", []):
+        if ev[2] == fn:
+            res["may"].add(ev[3])
+            res["reached"].add(ev[3])
     for p in paths:
         for (k, bb) in p.trace:
             if k == fn:
